@@ -638,6 +638,11 @@ class IH5Group(IH5InnerNode):
         if isinstance(dest, str):
             # if dest is a path, ignore inferred/passed name
             segs = self._abs_path(dest).split("/")
+            # list the source before creating missing parent groups of the target
+            # (they could be located inside the source, but are not part of it)
+            kwargs["_src_children"] = _list_children(
+                src_node, kwargs.get("shallow", False)
+            )
             dst_group = self.require_group("/".join(segs[:-1]) or "/")
             dst_name = segs[-1]
         else:
@@ -697,6 +702,21 @@ class H5Type(str, Enum):
         return f"{type(self).__name__}.{self.value}"
 
 
+def _list_children(source_node, shallow: bool = False):
+    """Return (relative path, node) pairs of the children of a node (empty for datasets)."""
+    children: List[Any] = []
+    if isinstance(source_node, H5DatasetLike):
+        return children
+    if shallow:  # only immediate children
+        return list(source_node.items())
+
+    def collect(name, src_child):
+        children.append((name, src_child))
+
+    source_node.visititems(collect)  # recursive
+    return children
+
+
 def h5_copy_from_to(
     source_node: Union[H5DatasetLike, H5GroupLike],
     target_group: H5GroupLike,
@@ -713,6 +733,7 @@ def h5_copy_from_to(
     """
     without_attrs: bool = kwargs.pop("without_attrs", False)
     shallow: bool = kwargs.pop("shallow", False)
+    src_children = kwargs.pop("_src_children", None)
     for arg in ["expand_soft", "expand_external", "expand_refs"]:
         if not kwargs.pop(arg, True):
             raise ValueError("IH5 does not support keeping references!")
@@ -734,6 +755,10 @@ def h5_copy_from_to(
         node = target_group.create_dataset(target_path, data=source_node[()])
         copy_attrs(source_node, node)  # copy dataset attributes
     else:
+        # list the source first: the target may be located inside the source
+        if src_children is None:
+            src_children = _list_children(source_node, shallow)
+
         trg_root = target_group.create_group(target_path)
         copy_attrs(source_node, trg_root)  # copy source node attributes
 
@@ -745,8 +770,5 @@ def h5_copy_from_to(
                 trg_root.create_group(name)
             copy_attrs(src_child, trg_root[name])
 
-        if shallow:  # only immediate children
-            for name, src_child in source_node.items():
-                copy_children(name, src_child)
-        else:  # recursive copy
-            source_node.visititems(copy_children)
+        for name, src_child in src_children:
+            copy_children(name, src_child)
